@@ -43,7 +43,13 @@ def sh(cmd, cwd=None, env=None, timeout=3600, inp=None):
 
 def coq_make():
     """Full .vo build of the development (coq_makefile + make); no-op when up to date."""
-    if not os.path.exists(os.path.join(COQ, "Makefile")):
+    files = sorted(f for f in os.listdir(THEORIES) if f.endswith(".v") and f != "Extract.v")
+    files += sorted("gen/" + f for f in os.listdir(os.path.join(COQ, "gen")) if f.endswith(".v")) if os.path.isdir(os.path.join(COQ, "gen")) else []
+    proj = '-Q theories ""\n' + ('-Q gen ""\n' if any(f.startswith("gen/") for f in files) else "") + \
+        "".join(("theories/" + f if not f.startswith("gen/") else f) + "\n" for f in files)
+    pp = os.path.join(COQ, "_CoqProject")
+    if not os.path.exists(pp) or open(pp).read() != proj or not os.path.exists(os.path.join(COQ, "Makefile")):
+        open(pp, "w").write(proj)
         rc, out = sh("coq_makefile -f _CoqProject -o Makefile", cwd=COQ)
         if rc != 0:
             raise Infra("coq_makefile failed:\n" + out)
